@@ -26,7 +26,7 @@ func init() {
 			// table models: a run whose inputs sit exactly on interior knots of its rating table, re-run after a near-twin
 			// whose last lookup lies one representable number above the first knot used
 			{Name: "knot-history", Variant: "plain", N: core.Tiered(150, 5000), Run: c14KnotHistory},
-			{Name: "causal", Variant: "plain", N: core.Tiered(41*18, 41*400), Run: c14Causal},
+			{Name: "causal", Variant: "plain", N: core.Tiered(41*40, 41*400), Run: c14Causal},
 		},
 	})
 }
@@ -204,8 +204,24 @@ func c14Causal(c *core.Ctx) {
 		}
 	}
 	altSeed := c.R.Uint64()
-	c.Begin(map[string]interface{}{"model": model, "run": run, "truncate_after": cuts, "alt_future_seed": altSeed})
-	c.Class(fmt.Sprintf("%s/N%d/T%d/cuts%d", model, N, T, len(cuts)))
+	// "all state values": half of the runs of stateful models start from the states that a warm-up period left (filled
+	// delay buffers, wet stores) instead of the model's own initial states
+	var warm *MRun
+	if len(NewModel(model).Description().States) > 0 && c.R.Bool(0.5) {
+		warm = GenRun(model, c.R, N, N, N, c.R.IntRange(5, 20), wc)
+		warm.Sets = run.Sets
+	}
+	c.Begin(map[string]interface{}{"model": model, "run": run, "truncate_after": cuts, "alt_future_seed": altSeed, "warmup_for_hot_states": warm})
+	c.Class(fmt.Sprintf("%s/N%d/T%d/cuts%d/hot%v", model, N, T, len(cuts), warm != nil))
+	if warm != nil {
+		wo, err := Execute(warm)
+		if err != nil {
+			c.Violate("prepare", model, err.Error())
+			return
+		}
+		run.States = wo.States
+		c.Tag("causal:hot-states")
+	}
 	full, err := Execute(run)
 	if err != nil {
 		c.Violate("prepare", model, err.Error())
